@@ -43,6 +43,9 @@ requests (bytes are arrays of 0..255, text arrays of code points):
   {"op":"x_vfaces","tabs":{texinfo,planes,surfedges},"faces":[{plane,texinfo,dispinfo,edges,lm,flags}]} → {"bytes":[b…],"tabs":{…}}
   {"op":"x_bmodels","nodes":[id…],"faces":[id…],"world":id,"entModels":[id…],"md":[[id,{floats,node,faces,kv:[b…]|null,solids:[[b…]…]}]…]}
         → {"idx":[n…],"bytes":[b…],"phys":[b…],"models":[id…],"nodes":[id…],"faces":[id…]} | {"err":e}
+  {"op":"x_detail","names":[[name id,[b…]]…],"props":[{f6,leaf,lighting,styles,styleCount,sway,orient, model | rect,scale[,cross,ang,size]}]}
+        → {"bytes":[b…]} | {"err":e}                      the whole detail-prop game lump
+  {"op":"x_propidx","visleafs":[id…],"props":[{model: name id, leafs:[id…]}]} → {"recs":[[first,count,model index]…],"leafArray":[n…],"models":[…],"visleafs":[…]}
   {"op":"gen"}                                           → facts extracted from the source
 -/
 open Lean StructCodec C11
@@ -531,6 +534,67 @@ def handle (j : Json) : Except String Json := do
     | .ok (idx, recs, phys, ml, nodes', faces') =>
       pure (Json.mkObj [("idx", Wire.ofNatList idx), ("bytes", ← packRecs "models" "*" recs), ("phys", ofBytes phys),
         ("models", Wire.ofNatList ml), ("nodes", Wire.ofNatList nodes'), ("faces", Wire.ofNatList faces')])
+  | "x_detail" =>
+    let nj ← (← j.getObjVal? "names").getArr?
+    let names ← nj.toList.mapM fun q => do
+      let a ← q.getArr?
+      pure ((← (a[0]!).getNat?), (← bytesOf a[1]!))
+    let dj ← (← j.getObjVal? "props").getArr?
+    let ds ← dj.toList.mapM fun q => do
+      let f6 ← Wire.natList (← q.getObjVal? "f6")
+      let li ← Wire.intList (← q.getObjVal? "lighting")
+      let kind ← j.getObjValAs? String "op"
+      let k : DetailKind ← (match q.getObjVal? "model" with
+        | .ok x => do pure (DetailKind.model (← x.getNat?))
+        | .error _ => do
+          let rect ← Wire.natList (← q.getObjVal? "rect")
+          let scale := UInt32.ofNat (← natOf q "scale")
+          match q.getObjVal? "cross" with
+          | .ok c => pure (DetailKind.shape (rect.map UInt32.ofNat) scale (← c.getBool?) (← intOf q "ang") (← intOf q "size"))
+          | .error _ => pure (DetailKind.sprite (rect.map UInt32.ofNat) scale))
+      let _ := kind
+      pure (DetailV.mk (f6.map UInt32.ofNat) (← intOf q "leaf") li[0]! li[1]! li[2]! li[3]! (← intOf q "styles") (← intOf q "styleCount")
+        (← intOf q "sway") (← intOf q "orient") k)
+    let r := writeDetails ⟨Finder.mk' idKey [], Finder.mk' rectKey []⟩ ds
+    let guard := nameGuard "_lmp_write_detail_props"
+    let mut out : Bytes := []
+    match pi32 r.2.fModel.list.length with
+    | .ok b => out := out ++ b
+    | .error e => throw (lumpErr e)
+    for m in r.2.fModel.list do
+      match guard with
+      | none => throw "no guard info"
+      | some (n, g) =>
+        match nameWrite g n (lookupD names [] m) with
+        | .ok b => out := out ++ b
+        | .error e => return errJson (lumpErr e)
+    match pi32 r.2.fSprite.list.length with
+    | .ok b => out := out ++ b
+    | .error e => throw (lumpErr e)
+    match (findPair "detail_sprite" "*").bind (fun p => wireCat p.writer) with
+    | none => throw "sprite format"
+    | some fmt =>
+      for sp in r.2.fSprite.list do
+        match pack fmt (sp.map Val.f32) with
+        | .ok b => out := out ++ b
+        | .error e => throw (structErr e)
+    match pi32 ds.length with
+    | .ok b => out := out ++ b
+    | .error e => throw (lumpErr e)
+    match (findPair "detail_prop" "*").bind (fun p => wireCat p.writer) with
+    | none => throw "detail format"
+    | some fmt =>
+      match packMany fmt r.1 with
+      | .ok b => out := out ++ b
+      | .error e => return errJson (structErr e)
+    pure (Json.mkObj [("bytes", ofBytes out)])
+  | "x_propidx" =>
+    let visleafs ← natsOf j "visleafs"
+    let pj ← (← j.getObjVal? "props").getArr?
+    let ps ← pj.toList.mapM fun q => do pure (PropRefV.mk (← natOf q "model") (← natsOf q "leafs"))
+    let r := writePropIdx ⟨Finder.mk' idKey [], Finder.mk' idKey visleafs, []⟩ ps
+    pure (Json.mkObj [("recs", Json.arr (r.1.map (fun t => Wire.ofNatList [t.1, t.2.1, t.2.2])).toArray),
+      ("leafArray", Wire.ofNatList r.2.leafArray), ("models", Wire.ofNatList r.2.fModel.list), ("visleafs", Wire.ofNatList r.2.fLeaf.list)])
   | "gen" =>
     pure (Json.mkObj [
       ("findOrExtendBounded", Json.bool Gen.Bspfmt.findOrExtendBounded),
